@@ -46,7 +46,7 @@ def cli_run(k, spec):
     argv = [sys.executable, "-m", "outrank", "--task", "ranking", "--data_path", os.path.join(d, "in"),
             "--data_source", "csv-raw", "--output_folder", os.path.join(d, "out"), "--minibatch_size", str(c["B"]),
             "--subsampling", str(c["s"]), "--heuristic", c["heuristic"], "--target_ranking_only", c["target_only"],
-            "--label_column", c["cols"][-1], "--include_cardinality_in_feature_names", "False", "--disable_tqdm", "True",
+            "--label_column", c["cols"][-1], "--include_cardinality_in_feature_names", "False", "--disable_tqdm", c.get("disable_tqdm", "True"),
             "--num_threads", str(spec["threads"]), "--interaction_order", str(c.get("interaction_order", 1)),
             "--combination_number_upper_bound", str(c.get("cap", 2 ** 15)),
             "--include_noise_baseline_features", c.get("noise", "False")] + list(c.get("extra_args", []))
@@ -64,7 +64,10 @@ def cli_run(k, spec):
     table = read_text_table(os.path.join(d, "out", "pairwise_ranks.tsv"))
     if not payload.get("keep"):
         shutil.rmtree(d, ignore_errors=True)
+    cmd = "PYTHONHASHSEED=%s " % spec["hashseed"] + " ".join(
+        ("'%s'" % a if (" " in a or ";" in a or a == "") else a) for a in ["python", "-m", "outrank"] + argv[3:])
     return {"rc": rc, "stderr": err if rc != 0 or table is None else "", "pairwise_text": table, "wall": round(time.time() - t0, 1),
+            "command_line": cmd.replace(d, "<dir>"),
             "threads": spec["threads"], "hashseed": spec["hashseed"]}
 
 
